@@ -51,7 +51,9 @@ def make(d, k, c, seed):
             h[segyio.TraceField.INLINE_3D], h[segyio.TraceField.CROSSLINE_3D] = 50 + t, 9
         hdrs.append(h)
     sgy = os.path.join(d, f'l{k}.sgy')
-    inputs.write_segy_traces(sgy, data, 12.0 + 2.0 * np.arange(nz), hdrs)
+    # first sample after, at, before time zero (a negative delay recording time); 2 ms or 4 ms sampling
+    z0, dz = ((12.0, 2.0), (0.0, 4.0), (-100.0, 2.0), (-48.0, 4.0))[k % 4]
+    inputs.write_segy_traces(sgy, data, z0 + dz * np.arange(nz), hdrs)
     p = os.path.join(d, f'l{k}.sgz')
     writers.segy_to_sgz(sgy, p, writers.rate_arg(c['rate']), c['bs'], header_detection=c['mode'])
     return sgy, p, data
